@@ -99,17 +99,21 @@ def evaluate(ctx: Ctx, scripts, which, compare_model=True, crypto_of=None, sampl
         # The theorems of C13 are proved for the model with the C13 repair and *either* setting of the
         # C12 repair switch (and the safety theorems of C12 likewise), so the tie may be made with
         # whichever of the two variants the code under check implements.
-        variants = [(True, True, "with the C12 repairs"), (True, False, "without discard_event on unsubscribe (C12-resubscribe.patch)"),
-                    (False, False, "without the C12 repairs (discard_stale_event, discard_event)")]
+        variants = [(True, True, True, "with the C12 repairs"),
+                    (True, True, False, "without the restore of the previous value when a setter callback raises (C12-failed-write.patch)"),
+                    (True, False, False, "without discard_event on unsubscribe (C12-resubscribe.patch) and C12-failed-write.patch"),
+                    (False, False, False, "without the C12 repairs (discard_stale_event, discard_event, failed-write restore)"),
+                    (True, False, True, "without discard_event on unsubscribe (C12-resubscribe.patch)"),
+                    (False, False, True, "without the C12 repairs (discard_stale_event, discard_event)")]
         ok = False
-        for fix12, fixr, label in variants:
-            lines = [dict(mline(ops), fix12=fix12, fixResub=fixr) for ops in scripts]
+        for fix12, fixr, fixf, label in variants:
+            lines = [dict(mline(ops), fix12=fix12, fixResub=fixr, fixRaise=fixf) for ops in scripts]
             model = run_model_parallel(which, lines, workers=12)
             ok = all("fatal" not in m and gen.first_difference(m, gen.canon_impl(r)) is None
                      for m, r in zip(model, impl) if "crash" not in r)
             if ok:
                 st.hit("outcome", "model-variant: " + label, len(scripts))
-                if not (fix12 and fixr):
+                if not (fix12 and fixr and fixf):
                     st.notes.append("the code matches the model variant " + label + "; the C12 theorems that assume the "
                                     "missing repair (C12_quiescent / C12_delivered_current) do not apply to that variant")
                 break
